@@ -230,9 +230,17 @@ Definition wrap_tail (first text2 : string) (width indent : nat) : res :=
   | Some (Some parts) => Ok (rstrip_nl (first ++ sjoin nl1 parts))
   end.
 
+(* str.lstrip(" \t\v\f\r\x1c\x1d\x1e\x1f"): every ASCII whitespace character except the newline *)
+Definition is_lblank (c : ascii) : bool := is_pyspace c && negb (Ascii.eqb c nl).
+
+(* text.expandtabs().lstrip(...) : the prologue added by the fix "keep wrap()'s first-line slice aligned" *)
+Definition wrap_prologue (text : string) : string := sdrop_while is_lblank (expandtabs 0 text).
+
 Definition wrap (text : string) (width offset indent : nat) : res :=
   if is_empty text then Ok EmptyString else
-  match wrap_head (repl_nlsp text) width offset with
+  let text0 := wrap_prologue text in
+  if is_empty text0 then Ok EmptyString else
+  match wrap_head (repl_nlsp text0) width offset with
   | (Ok first, text2) => wrap_tail first text2 width indent
   | (e, _) => e
   end.
@@ -248,13 +256,33 @@ Definition meta_doc (leading trailing : string) (detached : list string) : strin
 Definition needs_pandoc (text : string) : bool :=
   sany (fun c => contains c "|*`_[]") text.
 
+Definition dq : ascii := """"%char.
+Definition bs : ascii := "\"%char.
+(* answer.replace(TRIPLE, ESCAPED): leftmost, non-overlapping; each of the three quotes gets a backslash *)
+Definition esc3 : string := String bs (String dq (String bs (String dq (String bs (String dq EmptyString))))).
+Fixpoint repl3 (s : string) : string :=
+  match s with
+  | EmptyString => EmptyString
+  | String a t =>
+      match t with
+      | String b (String c s') =>
+          if Ascii.eqb a dq && Ascii.eqb b dq && Ascii.eqb c dq then esc3 ++ repl3 s' else String a (repl3 t)
+      | _ => String a (repl3 t)
+      end
+  end.
+
+(* the end of rst (both paths): escape the terminator, pad a final backslash, put a period after a final quote *)
+Definition rst_tail (answer : string) : string :=
+  let a1 := repl3 answer in
+  let a2 := if ends_with_c bs a1 then a1 ++ " " else a1 in
+  if ends_with_c dq a2 then a2 ++ "." else a2.
+
 Definition rst (text : string) (width indent : nat) (nl_opt : option bool) : res :=
   if needs_pandoc text then NeedsPandoc else
   match wrap text (width - indent) (indent + 3) indent with
   | Ok answer =>
       let add_nl := match nl_opt with Some b => b | None => contains nl answer end in
-      let a1 := if add_nl then answer ++ nl1 ++ rep indent sp else answer in
-      Ok (if ends_with_c """"%char a1 then a1 ++ "." else a1)
+      Ok (rst_tail (if add_nl then answer ++ nl1 ++ rep indent sp else answer))
   | e => e
   end.
 
@@ -267,3 +295,19 @@ Fixpoint pw_acc (cur : string) (s : string) : list string :=
   | String c s' => if is_pyspace c then app (flush cur) (pw_acc EmptyString s') else pw_acc (cur ++ s1 c) s'
   end.
 Definition pywords (s : string) : list string := pw_acc EmptyString s.
+
+(* How CPython's tokenizer reads the body of a raw triple-quoted literal r"""...""": a backslash takes the next character
+   with it, three consecutive unescaped double quotes end the literal.  State: (the previous character is a pending
+   backslash, number of consecutive unescaped quotes just read); None = the literal ended inside the text. *)
+Fixpoint dq_scan (esc : bool) (run : nat) (s : string) : option (bool * nat) :=
+  match s with
+  | EmptyString => Some (esc, run)
+  | String c s' =>
+      if esc then dq_scan false 0 s'
+      else if Ascii.eqb c bs then dq_scan true 0 s'
+      else if Ascii.eqb c dq then (if 2 <=? run then None else dq_scan false (S run) s')
+      else dq_scan false 0 s'
+  end.
+(* the text can be followed by the closing quotes: the literal does not end inside it, and at its end no backslash is
+   pending and no quote would join the closing ones *)
+Definition docstring_safe (s : string) : Prop := dq_scan false 0 s = Some (false, 0).
